@@ -631,7 +631,8 @@ class Executor:
             return self.stubs[key](self, args, kwargs, node)
         if len(self.stack) > self.inline_depth + 8:
             raise Unsupported(f'inline depth exceeded at {key}')
-        if any(k == key for k, _ in self.stack) and not getattr(clo, 'allow_recursion', False):
+        depth = sum(1 for k, _ in self.stack if k == key)
+        if depth and not (getattr(clo, 'allow_recursion', False) or (depth < 3 and key[1].endswith(('__deepcopy__', '__copy__', '__init__', 'copy')))):
             raise Unsupported(f'recursion without contract: {key}')
         fn = clo.node
         env = Env(clo.module, parent=clo.env if clo.env.vars or clo.env.parent else None)
@@ -696,6 +697,33 @@ class Executor:
             return self.stubs[key](self, args, kwargs, node)
         if issubclass(cls, BaseException):
             return ExcVal(cls, tuple(args))
+        import dataclasses
+        if self.is_repo_callable(cls) and dataclasses.is_dataclass(cls) and '__init__' in cls.__dict__ and \
+                getattr(cls.__dict__['__init__'], '__qualname__', '').endswith('.__init__') and not repo.find_functions(cls.__module__, cls.__qualname__ + '.__init__'):
+            # generated dataclass __init__: fields in declaration order, defaults as declared
+            obj = SymObj({cls}, self.fresh_name(cls.__name__), prov='fresh')
+            obj.closed = True
+            args = list(args)
+            kwargs = dict(kwargs)
+            for f in dataclasses.fields(cls):
+                if not f.init:
+                    continue
+                if args:
+                    obj.fields[f.name] = args.pop(0)
+                elif f.name in kwargs:
+                    obj.fields[f.name] = kwargs.pop(f.name)
+                elif f.default is not dataclasses.MISSING:
+                    obj.fields[f.name] = f.default
+                elif f.default_factory is not dataclasses.MISSING:
+                    if f.default_factory in (list, dict, set):
+                        obj.fields[f.name] = f.default_factory()
+                    else:
+                        raise Unsupported(f'dataclass default_factory {f.default_factory!r}')
+                else:
+                    raise SymRaise(TypeError, (f'missing argument {f.name} of {cls.__name__}',))
+            if args or kwargs:
+                raise SymRaise(TypeError, (f'unexpected arguments for {cls.__name__}',))
+            return obj
         if self.is_repo_callable(cls):
             obj = SymObj({cls}, self.fresh_name(cls.__name__), prov='fresh')
             obj.closed = True
